@@ -404,3 +404,29 @@ def shrink(ctx, case):
                 break
     best = dict(best); best.pop("_complaints", None)
     return best
+
+
+# ---- T1X: the numerals of this property's models are tied to the current tree.  extract/consts2*.c + a source scan
+# rewrite lean/CoapVerif/Generated/Consts2.lean on every check; Props/C17Consts.lean proves `<model numeral> =
+# Generated.C2.<name>` (design/T1.md).  A changed macro / struct size / literal breaks one of these named obligations.
+LEAN_MODULES = list(LEAN_MODULES) + ["CoapVerif.Props.C17Consts"]
+REQUIRED_THEOREMS = list(REQUIRED_THEOREMS) + [
+    "szKey_matches_code",
+    "szProto_matches_code",
+    "szAddr_matches_code",
+    "szTuple_matches_code",
+    "szLen_matches_code",
+    "minusOne_matches_code",
+    "maxLen_matches_code",
+    "cntBuf_matches_code",
+    "initialObserve_matches_code",
+    "mask24_matches_code",
+    "protoUdp_matches_code",
+]
+TRUSTED_BASE = list(TRUSTED_BASE) + ["T1 extractors extract/consts2.c, consts2_net.c, consts2_opt.c and the source scan vlib/tables.py scan_consts2 (Generated/Consts2.lean)"]
+_t1x_prev_extract = globals().get("extract")
+
+
+def extract(ctx):
+    from vlib import tables
+    return (_t1x_prev_extract(ctx) if _t1x_prev_extract else []) + tables.extract_consts2()
